@@ -30,6 +30,9 @@ func init() {
 
 	addSelfTests("C34",
 		mutation{"compare-before-lowering", "gateway/proxy_handler.go", "	host = strings.ToLower(host)\n	parts := strings.SplitN(host, \".\", 2)", "	parts := strings.SplitN(host, \".\", 2)", "normalise"},
+		mutation{"split-by-cut-lowered", "gateway/proxy_handler.go", "	parts := strings.SplitN(host, \".\", 2)\n	if len(parts) != 2 {\n		err = fmt.Errorf(\"gateway: invalid hostname for forwarding\")\n		return\n	}\n	if slices.Contains(g.RootDomains, parts[1]) {\n		hostname = parts[0]\n	} else {", "	label, parent, found := strings.Cut(host, \".\")\n	if !found {\n		err = fmt.Errorf(\"gateway: invalid hostname for forwarding\")\n		return\n	}\n	if slices.Contains(g.RootDomains, parent) {\n		hostname = label\n	} else {", "!normalise"},
+		mutation{"split-by-cut-raw", "gateway/proxy_handler.go", "	host = strings.ToLower(host)\n	parts := strings.SplitN(host, \".\", 2)\n	if len(parts) != 2 {\n		err = fmt.Errorf(\"gateway: invalid hostname for forwarding\")\n		return\n	}\n	if slices.Contains(g.RootDomains, parts[1]) {\n		hostname = parts[0]\n	} else {", "	label, parent, found := strings.Cut(host, \".\")\n	if !found {\n		err = fmt.Errorf(\"gateway: invalid hostname for forwarding\")\n		return\n	}\n	if slices.Contains(g.RootDomains, parent) {\n		hostname = label\n	} else {", "normalise"},
+		mutation{"label-from-wrong-part", "gateway/proxy_handler.go", "		hostname = parts[0]\n", "		hostname = parts[1]\n", "refusals"},
 		mutation{"result-not-lowered", "gateway/proxy_handler.go", "	host = strings.ToLower(host)\n	parts := strings.SplitN(host, \".\", 2)", "	parts := strings.SplitN(strings.ToLower(host), \".\", 2)", "normalise"},
 		mutation{"ip-check-dropped", "gateway/proxy_handler.go", "	if net.ParseIP(host) != nil {\n		err = fmt.Errorf(\"gateway: hostname cannot be IP\")\n		return\n	}\n", "	_ = net.ParseIP\n", "refusals"},
 	)
@@ -85,7 +88,7 @@ func loweredAt(f *Fn, at ast.Node) (map[*types.Var]bool, func(e ast.Expr) bool) 
 				switch f.CallKey(x) {
 				case "strings.ToLower":
 					return true
-				case "strings.SplitN", "strings.Split", "strings.TrimSuffix", "strings.TrimPrefix", "strings.TrimSpace", "strings.Trim", "strings.TrimRight", "strings.TrimLeft":
+				case "strings.SplitN", "strings.Split", "strings.Cut", "strings.CutPrefix", "strings.CutSuffix", "strings.Fields", "strings.TrimSuffix", "strings.TrimPrefix", "strings.TrimSpace", "strings.Trim", "strings.TrimRight", "strings.TrimLeft":
 					return rec(x.Args[0])
 				}
 			}
@@ -287,16 +290,16 @@ func runC34(c *Ctx) {
 		if !ok || len(call.Args) != 2 {
 			return true
 		}
-		ix, ok := call.Args[1].(*ast.IndexExpr)
-		if !ok {
-			return true
-		}
+		pa := eh.Prov(call.Args[1])
 		for _, st := range ifs.Body.List {
 			if as, ok := st.(*ast.AssignStmt); ok && len(as.Rhs) == 1 {
-				if ix0, ok := as.Rhs[0].(*ast.IndexExpr); ok && types_ExprString(ix0.X) == types_ExprString(ix.X) {
-					v0, _ := eh.ConstVal(ix0.Index)
-					v1, _ := eh.ConstVal(ix.Index)
-					okLabel = v0 == "0" && v1 == "1"
+				pb := eh.Prov(as.Rhs[0])
+				// parts[1] / parts[0] of one Split, or after / before of one Cut
+				if x, ok := strings.CutSuffix(pa, "[const:1]"); ok && strings.Contains(x, "strings.Split") && pb == x+"[const:0]" {
+					okLabel = true
+				}
+				if x, ok := strings.CutSuffix(pa, "strings.Cut()#1"); ok && pb == x+"strings.Cut()#0" && len(eh.CallsTo(false, "strings.Cut")) == 1 {
+					okLabel = true
 				}
 			}
 		}
